@@ -250,6 +250,9 @@ structure Plan where
   serverName : Str
   /-- authority of the DoH end-point URL (HTTP `Host` / `:authority`); `[]` otherwise -/
   httpHost : Str
+  /-- address of the TCP retry leg of a udp upstream (`udpWithFallback.t`), dialled on network "tcp"
+      after a truncated UDP reply; `none` for every other protocol -/
+  tcpFallback : Option Str
   deriving DecidableEq, Repr
 
 inductive Res where
@@ -282,25 +285,27 @@ def newUpstream (addr dialAddr : Str) : Res :=
     | none => .panic
     | some urlAddrHost =>
       if scheme = [] ∨ scheme = sUdp then
-        .ok ⟨.udp, pipeline, h3, sUdp, getDialAddr urlAddrHost dialAddr p53, [], []⟩
+        -- dialUdp and dialTcp close over the same `dialAddr`
+        let da := getDialAddr urlAddrHost dialAddr p53
+        .ok ⟨.udp, pipeline, h3, sUdp, da, [], [], some da⟩
       else if scheme = sTcp then
         let da := getDialAddr urlAddrHost dialAddr p53
-        .ok ⟨.tcp, pipeline, h3, dialNetworkTcpOrUnix da, da, [], []⟩
+        .ok ⟨.tcp, pipeline, h3, dialNetworkTcpOrUnix da, da, [], [], none⟩
       else if scheme = sTls then
         let da := getDialAddr urlAddrHost dialAddr p853
-        .ok ⟨.tls, pipeline, h3, dialNetworkTcpOrUnix da, da, tryRemovePort urlAddrHost, []⟩
+        .ok ⟨.tls, pipeline, h3, dialNetworkTcpOrUnix da, da, tryRemovePort urlAddrHost, [], none⟩
       else if scheme = sHttps ∨ scheme = sHttp then
         let defaultPort := if scheme = sHttp then p80 else p443
         let da := getDialAddr urlAddrHost dialAddr defaultPort
         if h3 then
-          .ok ⟨.https, pipeline, h3, sUdp, da, h3ServerName u.host, u.host⟩
+          .ok ⟨.https, pipeline, h3, sUdp, da, h3ServerName u.host, u.host, none⟩
         else if scheme = sHttp then
-          .ok ⟨.http, pipeline, h3, dialNetworkTcpOrUnix da, da, [], u.host⟩
+          .ok ⟨.http, pipeline, h3, dialNetworkTcpOrUnix da, da, [], u.host, none⟩
         else
-          .ok ⟨.https, pipeline, h3, dialNetworkTcpOrUnix da, da, httpsServerName u.host, u.host⟩
+          .ok ⟨.https, pipeline, h3, dialNetworkTcpOrUnix da, da, httpsServerName u.host, u.host, none⟩
       else if scheme = sQuic ∨ scheme = sDoq then
         .ok ⟨.quic, pipeline, h3, sUdp, getDialAddr urlAddrHost dialAddr p853,
-              tryRemovePort urlAddrHost, []⟩
+              tryRemovePort urlAddrHost, [], none⟩
       else .unsupported
 
 /-! ### structured cases: the supported address forms of the property text -/
@@ -445,12 +450,17 @@ def observe (c : Case) : Res → Obs
   | .unsupported => ⟨sNewErr, sNone, none, none, none⟩
   | .panic => ⟨sPanic, sNone, none, none, none⟩
   | .ok p =>
-    let ctl := ctlOf c.ns p.network p.dialAddr
+    let ctl0 := ctlOf c.ns p.network p.dialAddr
     let live := isLive p.network p.dialAddr
+    -- a udp upstream whose datagrams reach the harness' UDP server (which answers TC=1) goes on to
+    -- dial its TCP leg; both dials are seen by `Control` (reported sorted: tcp before udp)
+    let ctl := match p.tcpFallback with
+      | some fa => if live ∧ ctl0 ≠ sNone then ctlOf c.ns sTcp fa ++ ';' :: ctl0 else ctl0
+      | none => ctl0
     let quicLike := p.proto = .quic ∨ p.h3 = true
     let tlsLike := p.proto = .tls ∨ p.proto = .https ∨ p.proto = .quic
     let sname :=
-      if tlsLike ∧ ((quicLike ∧ ctl ≠ sNone) ∨ (¬ quicLike ∧ live)) then some p.serverName else none
+      if tlsLike ∧ ((quicLike ∧ ctl0 ≠ sNone) ∨ (¬ quicLike ∧ live)) then some p.serverName else none
     let sni :=
       if (p.proto = .tls ∨ p.proto = .https) ∧ ¬ quicLike ∧ live then
         some (if c.host.isIP then [] else trimDots c.host.bare)
@@ -517,12 +527,26 @@ def Target.live : Target → Bool
   | .unix a => a == sUNIX
   | .noClaim => false
 
+/-- udp upstreams retry truncated replies over TCP: a second connection, to the same host and port -/
+def Scheme.tcpRetry : Scheme → Bool
+  | .none | .udp => true
+  | _ => false
+
+/-- every connection the harness can provoke: the dial itself and, for a udp upstream that reaches
+    the harness' truncating UDP server, the TCP retry — to exactly the same host and port -/
+def expectedCtl (c : Case) (t : Target) : Str :=
+  match t with
+  | .inet _ h p =>
+    if c.scheme.tcpRetry && t.live then (Target.inet sTcp h p).ctl c.ns ++ ';' :: t.ctl c.ns
+    else t.ctl c.ns
+  | _ => t.ctl c.ns
+
 def specDial (c : Case) (o : Obs) : Bool :=
   if !c.wf then true else
   match c.target with
   | .noClaim => true
   | t =>
-    o.res == sOk && o.ctl == t.ctl c.ns &&
+    o.res == sOk && o.ctl == expectedCtl c t &&
     -- the TLS server name is the URL host
     (o.sname == none || (c.scheme.tlsBased && o.sname == some c.host.bare)) &&
     -- ... and a handshake is attempted whenever the harness can see one
